@@ -424,25 +424,20 @@ def run(ctx):
     # std Cow conversion
     conv = [f for f in m.fns if f.name == "from" and f.j.get("impl_self", "").startswith("alloc::borrow::Cow<") and "cow::Cow<" in f.j.get("impl_trait_ref", "")]
     for f in conv:
-        ks = kind_switch(f)
-        ok = False
-        detail = "no kind match"
-        if ks:
-            sw, edges = ks
-            b = f.body
-            res = {}
-            for kind, tgt in edges.items():
-                blocks = arm_blocks(b, sw, tgt)
-                calls = arm_calls(f, blocks)
-                res[kind] = sorted({strip_generics(c.resolved or "").split("::")[-1] for c in calls if c.is_("Cow<'_, T>::into_owned", "cow::Cow<'a, T>::into_owned", "into_owned", "Cowable::borrowed_from_parts")})
-            # Owned and Shared share a block when written `A | B =>`
-            ok = "borrowed_from_parts" in res.get("Borrowed", []) and all("into_owned" in res.get(k, ["into_owned"]) or res.get(k) == [] for k in ("Owned", "Shared"))
-            own_t = {edges.get("Owned"), edges.get("Shared")}
-            if own_t == {None}:
-                own_t = {edges.get("otherwise")}  # `if let Kind::Borrowed = .. { return .. }` followed by the owning case
-            anyown = any("into_owned" in [strip_generics(c.resolved or "").split("::")[-1] for c in f.body.calls() if c.bb in b.reachable(t)] for t in own_t if t is not None)
-            ok = ok and anyown
-            detail = f"arms: {res}"
+        # whichever way the kind is inspected: the value is re-borrowed only where it is known to be Borrowed, and turned
+        # into an owned copy (giving up what it held) only where it is known not to be
+        from facts import PredFlow
+
+        def csw_k(subj, variant):
+            if sym_is_call(subj, "cow::Metadata::kind"):
+                return "P" if variant == "Borrowed" else "N"
+            return None
+
+        pfk = PredFlow(f, csw_k)
+        reb = [c for c in nonforeign_calls(f) if c.fn is f and c.is_("Cowable::borrowed_from_parts")]
+        own = [c for c in nonforeign_calls(f) if c.fn is f and c.is_("Cow<'_, T>::into_owned", "cow::Cow<'a, T>::into_owned", "into_owned") and "cow::Cow" in (c.resolved or "")]
+        ok = len(reb) == 1 and len(own) == 1 and pfk.at(reb[0].bb) == "P" and pfk.at(own[0].bb) == "N"
+        detail = f"re-borrow under kind={pfk.at(reb[0].bb) if reb else None}, into_owned under kind={pfk.at(own[0].bb) if own else None} (P = Borrowed, N = not Borrowed)"
         chk.ob("C14.b", f.path, ok, "Owned|Shared -> into_owned, Borrowed -> re-borrow" if ok else f"std Cow conversion: {detail}", f.loc())
 
     # ---------------- C14.c
